@@ -36,6 +36,10 @@ pub struct Case {
     #[serde(with = "hexser")]
     pub input: Vec<u8>,
     pub kind: String,
+    /// for an unmutated valid stream decoded by its own decoder: its true output
+    /// length (no legitimate decode can produce more), enabling a tight heap bound
+    #[serde(default)]
+    pub known_output: Option<u64>,
 }
 
 #[derive(Clone, Debug)]
@@ -107,10 +111,17 @@ impl Property for C07 {
     }
     fn strategy(&self, _tier: Tier) -> BoxedStrategy<Abs> {
         let base = prop_oneof![
-            5 => abs_lzma_file(30, 300, 60_000).prop_map(AbsBase::Lzma),
-            4 => abs_base_lzma2(4, 14),
-            6 => abs_base_xz(3),
-            2 => random_bytes(300).prop_map(AbsBase::Random),
+            10 => abs_lzma_file(30, 300, 60_000).prop_map(AbsBase::Lzma),
+            // outputs beyond 1 MiB (with header dictionaries up to 4 GiB - 1)
+            1 => (abs_lzma_file(6, 10, 2 << 20), 4000u16..7500, any::<u16>()).prop_map(|(mut f, k, dsel)| {
+                f.prog.insert(0, AbsOp::Lit(LitKind::Given, k as u8));
+                f.prog.insert(1, AbsOp::Lit(LitKind::Noise, 9));
+                f.prog.insert(2, AbsOp::Run { k, op: Box::new(AbsOp::Match { dclass: 6, dsel, lclass: 6, lsel: 0 }) });
+                AbsBase::Lzma(f)
+            }),
+            8 => abs_base_lzma2(4, 14),
+            12 => abs_base_xz(3),
+            4 => random_bytes(300).prop_map(AbsBase::Random),
         ];
         (
             base,
@@ -142,12 +153,14 @@ impl Property for C07 {
         // input bytes
         let mut kind;
         let mut true_len = 0u64;
+        let mut output_known = false;
         let mut props = Props::new(3, 0, 2);
         let base_bytes: Vec<u8> = match &a.base {
             AbsBase::Lzma(f) => {
                 kind = "lzma".to_string();
                 let b = build_lzma_file(f);
                 true_len = b.output.len() as u64;
+                output_known = true;
                 props = b.props;
                 b.bytes
             }
@@ -289,7 +302,14 @@ impl Property for C07 {
             }
             _ => input,
         };
-        Case { entry, input, kind }
+        // the output is known only for an unmutated LZMA stream decoded with its own properties
+        let native_lzma = match &entry {
+            Entry::Lzma(_) | Entry::Stream { .. } => true,
+            Entry::RawLzma { lc, lp, pb, .. } => *lc == props.lc && *lp == props.lp && *pb == props.pb,
+            _ => false,
+        };
+        let known_output = if output_known && a.muts.is_empty() && native_lzma { Some(true_len) } else { None };
+        Case { entry, input, kind, known_output }
     }
     fn rule(&self) -> String {
         "proptest generates an input {valid LZMA / LZMA2 / XZ stream from the grammar generators; byte-level structured mutations of it (bit flips, byte sets, 4/8-byte field extremes 0 / 0xFF.. / 2^31 / 2^32-1, truncation, duplication, deletion, appended bytes); grammar-level near-valid XZ files with one sealed field set to an extreme (sizes up to 2^63-1, header size byte 0x40/0x80/0xC0/0xFF, record count 2^62, backward size 2^32-1 ...); uniformly random strings} and an entry point {lzma_decompress_with_options with every option shape and memlimit; lzma2_decompress; xz_decompress; Stream with arbitrary write/flush/get_output scripts, allow_incomplete on/off; raw::LzmaDecoder with lc<=8, lp<=4, pb<=4, dict_size in {0,1,2,7,300,4096,65536,2^31-1,2^31,2^32-1}, any unpacked size, any memlimit, decompress / reset(..) / decompress; raw::Lzma2Decoder incl. reuse; occasionally a decoder of another format}. Oracle: (a) the call returns Ok or Err - a panic (also integer overflow / division by zero in the overflow-checked build) is a violation; (b) it returns (sink capped at 32 MiB, so work is O(input + cap); a case running > 120 s is reported as non-termination); (c) peak growth of live heap during the call (counting allocator, non-storing sink) <= 16 MiB + 64 KiB x input length + 8 x bytes accepted by the sink. Non-trivial = the input passes the header checks of its format (reaches the payload loop); distinct = SipHash of (entry, input). Judged on the overflow-checked and on the release build.".into()
@@ -316,6 +336,8 @@ impl Property for C07 {
             ("verdict:Err", 10_000 * k),
             ("raw dict_size 0", 100 * k),
             ("reaches payload", 10_000 * k),
+            ("tight heap bound (output known)", 3000 * k),
+            ("tight heap bound, output > 1 MiB", 100 * k),
         ]
     }
 
@@ -430,6 +452,29 @@ impl Property for C07 {
                 format!("panic:{}", sut::panic_site(p)),
                 format!("panic: {} ; entry {} ; input({}B,{})={}", p, entry_text(&c.entry), c.input.len(), c.kind, hex_prefix(&c.input, 64)),
             );
+        }
+        if let Some(l) = c.known_output {
+            st.class("tight heap bound (output known)");
+            if l > (1 << 20) {
+                st.class("tight heap bound, output > 1 MiB");
+            }
+            let tight = (16usize << 20) + 4 * l as usize;
+            if mem.peak_growth > tight {
+                return Judgement::violation(
+                    "memory-out-of-proportion",
+                    format!(
+                        "peak heap growth {} bytes (largest single request {}) although the stream can produce at most {} bytes (bound 16 MiB + 4 x output = {}) ; entry {} ; input({}B,{})={}",
+                        mem.peak_growth,
+                        mem.biggest,
+                        l,
+                        tight,
+                        entry_text(&c.entry),
+                        c.input.len(),
+                        c.kind,
+                        hex_prefix(&c.input, 64)
+                    ),
+                );
+            }
         }
         let bound = (16usize << 20) + (64 << 10) * c.input.len() + 8 * sink_total as usize;
         if mem.peak_growth > bound {
